@@ -271,7 +271,9 @@ def m_c05(out) -> list[Violation]:
             if bad:
                 # the STOPPED path of _determine_final_status (a stage stopped with failPipeline=false / a task
                 # returning STOPPED, nothing else incomplete) is a distinct, documented way to get here
-                sig = "succeeded-with-stopped-stage" if "STOPPED" in bad.values() and set(bad.values()) <= {"STOPPED", "NOT_STARTED"} \
+                # (with a non-AND join downstream, stages can even start after the workflow was finalised and are then
+                # canceled by RunTask's completed-workflow check: same root cause, same finding)
+                sig = "succeeded-with-stopped-stage" if "STOPPED" in bad.values() and set(bad.values()) <= {"STOPPED", "NOT_STARTED", "CANCELED"} \
                     else "succeeded-unsound:" + ",".join(sorted(set(bad.values())))
                 vs.append(Violation(what=f"workflow reported SUCCEEDED although stages {bad} did not finish in a continuable status",
                                     signature=sig, replay=_replay(out, {"final": fs})))
@@ -308,9 +310,19 @@ def m_c17(out) -> list[Violation]:
         decided = in_effect_finished(out, cseq)
         for ref, st in at_cancel.items():
             if st not in COMPLETE and fs[ref] != "CANCELED" and ref not in decided:
-                vs.append(Violation(
-                    what=f"stage {ref} was {st} (with work still to do) when the cancel was processed but ends {fs[ref]}, not CANCELED",
-                    signature=f"not-canceled:{st}->{fs[ref]}", replay=_replay(out, {"final": fs})))
+                # did any work of that stage happen after the cancel other than skipping?
+                late = set()
+                for row in out["audit"]:
+                    if row["seq"] > cseq and row["kind"] == "task" and task_of(out, row["ent"])[0] == ref and row["new"] in COMPLETE:
+                        late.add(row["new"])
+                if fs[ref] in ("SKIPPED", "SUCCEEDED") and late <= {"SKIPPED"}:
+                    sig = "not-canceled:completed-by-skipping-only"
+                    what = (f"stage {ref} was {st} when the cancel was processed; afterwards it was completed {fs[ref]} purely by "
+                            f"skipping (stageEnabled=false / disabled SkippableTask), not CANCELED; no task ran")
+                else:
+                    sig = f"not-canceled:{st}->{fs[ref]}"
+                    what = f"stage {ref} was {st} (with work still to do) when the cancel was processed but ends {fs[ref]}, not CANCELED"
+                vs.append(Violation(what=what, signature=sig, replay=_replay(out, {"final": fs})))
                 break
         if out["final"]["wf"] not in COMPLETE:
             vs.append(Violation(what=f"workflow is {out['final']['wf']} after the cancel was processed and the queue drained",
@@ -346,6 +358,18 @@ def in_effect_finished(out, cseq: int) -> set:
                 pushed_ct.add((ref, out["task_ids"].get(p.get("task_id"), [None, None])[1]))
             elif row["new"] in ("SkipStage", "CompleteStage", "JumpToStage"):
                 decided.add(ref)
+    halted = set()
+    for (ref, t), stt in task_status.items():
+        if stt in HALT:
+            halted.add(ref)
+    for row in out["audit"]:
+        if row["seq"] >= cseq:
+            break
+        if row["kind"] == "push" and row["new"] == "CompleteTask":
+            p = json.loads(row["extra"])
+            if p.get("status") in HALT:
+                halted.add(out["id_ref"].get(p.get("stage_id")))
+    decided |= halted          # a task already failed / stopped: the stage's failure is decided
     for ref, sp in specs.items():
         n = len(sp.get("tasks", []))
         if n and all(task_status.get((ref, t), "NOT_STARTED") in COMPLETE or (ref, t) in pushed_ct for t in range(n)):
